@@ -212,6 +212,19 @@ pub fn run(out: &mut Out, rng: &mut Rng, thorough: bool) {
 			}
 		}
 	}
+	// Past 2^20 elements, MessagePack and JSON only.
+	{
+		let n = (1usize << 20) + 1;
+		let arr = Val::Seq((0..n).map(|i| Val::Int((i % 9) as i128)).collect());
+		for &a in &[Fmt::Msgpack, Fmt::Json] {
+			let Some(input) = spell(a, &arr, &Spelling::plain()) else { continue };
+			for &b in &[Fmt::Msgpack, Fmt::Json] {
+				out.count("sizes.beyond_2_pow_20");
+				fixed_point(out, rng, "size-2^20", a, b, &input);
+				there_and_back(out, rng, &arr, a, b, &input);
+			}
+		}
+	}
 	// Large non-ASCII documents (tens of KiB of 2-, 3- and 4-byte characters at
 	// every alignment relative to 8 KiB / 16 KiB read boundaries).
 	for pad in 0..4usize {
